@@ -24,7 +24,7 @@ EXPLANATION = (
     "or a decrease s - x control dependent on s > x for the very x that is taken (not merely s > 0); hence without bunds the ponding stays 0. C03.c: a water-content cell "
     "that is set to a hydraulic bound (saturation, adjusted field capacity) takes the bound of the same compartment. C03.d: threshold locals feeding a store into compartment j are computed from compartment j's own hydraulic properties "
     "(layer-change idiom for the net-irrigation refill). C03.e: no per-compartment array is subscripted with a layer number. C03.g: a store to the ponding depth made with bunds present is the bund height, min(., bund height), guarded by a comparison with it, a decrease, or followed on every path by the overtopping cap. C03.h (sibling agreement): the stage-1 and stage-2 extraction loops of soil_evaporation have the same statements and tests after renaming (incl. the clamp of negative available water below the evaporation layer). C03.f: the field management "
-    "in force follows the growing-season flag (in-season object when True, fallow object when False; constant propagation with distinct abstract objects). C03.i (= C19.f, sibling agreement): the two implementations of the adjusted field capacity (initialisation, daily) have the same tests and defining expressions after renaming - each compartment's level comes from its own field capacity and saturation, which keeps the content drainage and capillary rise aim at within [FC, saturation] of that compartment. C03.k (decrease-then-floor, must-pass-through): where a water-content cell is lowered by an amount held in a local (root extraction), every definition of that amount reaches the store only through the comparison of the lowered content with the compartment's air-dry content. NOT decided: "
+    "in force follows the growing-season flag (in-season object when True, fallow object when False; constant propagation with distinct abstract objects). C03.i (= C19.f, sibling agreement): the two implementations of the adjusted field capacity (initialisation, daily) have the same tests and defining expressions after renaming - each compartment's level comes from its own field capacity and saturation, which keeps the content drainage and capillary rise aim at within [FC, saturation] of that compartment. C03.k (decrease-then-floor, must-pass-through): where a water-content cell is lowered by an amount held in a local (root extraction), every definition of that amount reaches the store only through the comparison of the lowered content with the compartment's air-dry content. C03.l (= C18.m): the initial content of each request point / layer is computed from that layer's own properties (per-point lookup of the layer table by the layer named, defined in the same iteration). NOT decided: "
     "th >= th_dry and th <= th_s as numeric invariants, Wr >= 0.")
 
 BOUND_ATTRS = {"th_s", "th_fc_Adj", "th_fc"}
@@ -803,6 +803,11 @@ def run(chk, prog, tier):
     rule_d(chk, prog)
     rule_f(chk, prog)
     rule_k(chk, prog)
+    # C03.l = C18.m: the initial content of a layer is computed from that layer's own properties (a content converted with another layer's
+    # wilting point / field capacity starts outside the compartment's limits and stays there)
+    from .c18 import rule_m as per_point_layer_lookup
+    from ._alias import Alias
+    per_point_layer_lookup(Alias(chk, "C18.m", "C03.l"), prog)
     from ._siblings import evap_stage_agreement
     evap_stage_agreement(chk, prog, "C03.h")
     # C03.i: the adjusted field capacity (the level drainage and capillary rise fill a compartment to under a water table) is computed by two
